@@ -38,6 +38,9 @@ def specFuncsMpeg : List Func := [
   { name := "spec.Ext.encode", run := fun vs => match vs with
       | [a, b, c] => do pure (.ok (.bytes (afExtension (← optBytes a) (← optBytes b) (← optBytes c))))
       | _ => none },
+  { name := "spec.Ext.asCoded", run := fun vs => match vs with
+      | [a, b, c] => do pure (.ok (.bytes (extensionAsCoded (← optBytes a) (← optBytes b) (← optBytes c))))
+      | _ => none },
   { name := "spec.crc32mpeg2", run := fun vs => match vs with
       | [.bytes b] => some (.ok (.ofNat (crc32mpeg2 b)))
       | _ => none },
